@@ -15,6 +15,7 @@ static const int INITIAL_MEM_STACKS = 16;     /**< Initial number of allocated s
 
 #if !defined(NDEBUG) && !defined(REPLACE_STACK_BY_MALLOC)
 static const int PROTECTION = INT_MIN / 42;   /**< Protection bytes to detect corruption. */
+#define PROTECTION_SIZE sizeof(void*)         /**< Space for the protection bytes; keeps size field and chunk aligned. */
 #endif /* !NDEBUG */
 
 CMR_ERROR CMRcreateEnvironment(CMR** pcmr)
@@ -231,9 +232,12 @@ CMR_ERROR _CMRallocStack(
   if (size < 4)
     size = 4;
 
+  /* Round up to a multiple of the pointer size such that all chunks and their size fields are aligned. */
+  size = (size + sizeof(void*) - 1) / sizeof(void*) * sizeof(void*);
+
   size_t requiredSpace = size + sizeof(void*);
 #if !defined(NDEBUG)
-  requiredSpace += sizeof(int);
+  requiredSpace += PROTECTION_SIZE;
 #endif /* !NDEBUG */
 
 #if defined(DEBUG_STACK)
@@ -277,7 +281,7 @@ CMR_ERROR _CMRallocStack(
   pstack->top -= size;
   *ptr = &pstack->memory[pstack->top];
 #if !defined(NDEBUG)
-  pstack->top -= sizeof(int);
+  pstack->top -= PROTECTION_SIZE;
   *((int*) &pstack->memory[pstack->top]) = PROTECTION;
 #endif /* !NDEBUG */
   pstack->top -= sizeof(void*);
@@ -319,7 +323,7 @@ CMR_ERROR _CMRfreeStack(CMR* cmr, void** ptr)
 
 
 #ifndef NDEBUG
-  if (&stack->memory[stack->top + sizeof(int) + sizeof(void*)] != *ptr)
+  if (&stack->memory[stack->top + PROTECTION_SIZE + sizeof(void*)] != *ptr)
   {
     fprintf(stderr,
       "Wrong order of CMRfreeStack(Array) detected. Top chunk on stack has size %ld!\n",
@@ -330,7 +334,7 @@ CMR_ERROR _CMRfreeStack(CMR* cmr, void** ptr)
 
   stack->top += size + sizeof(void*);
 #if !defined(NDEBUG)
-  stack->top += sizeof(int);
+  stack->top += PROTECTION_SIZE;
 #endif /* !NDEBUG */
 
   while (stack->top == (FIRST_STACK_SIZE << cmr->currentStack) && cmr->currentStack > 0)
@@ -365,7 +369,7 @@ void CMRassertStackConsistency(
       CMRdbgMsg(0, " It indicates a chunk of size %d.\n", size);
       ptr += sizeof(size_t*);
       assert(*((int*)ptr) == PROTECTION);
-      ptr += size + sizeof(int);
+      ptr += size + PROTECTION_SIZE;
     }
   }
 }
